@@ -9,8 +9,9 @@ WITHDRAW_CAS_A = "if ret.is_ok() { assert((g.granted + 1) * (self.withdraw_amoun
 DEPOSIT_CAS_A = "if ret.is_ok() { assert((g.deposited + 1) * (self.deposit_amount as nat) == g.deposited * (self.deposit_amount as nat) + self.deposit_amount as nat) by(nonlinear_arith); g = GB { granted: g.granted, deposited: g.deposited + 1 }; }   // #deposit_is_one_atomic_step_within_max [C08]"
 WITNESS = [
     ("inject", None, "start", "let ghost mut vx_grants: nat = 0;"),
-    ("inject", r"return true;", "before", "proof { assert(vx_grants == 1); }   // #returns_true_only_after_its_own_successful_withdrawal [C08]"),
-    ("inject", r"return false;", "before", "proof { assert(vx_grants == 0); }   // #returns_false_without_withdrawing [C08]"),
+    # every `return true` / `return false` (statement or match arm) is wrapped with the local ghost witness check
+    ("sub", "ghost-inject", r"\breturn\s+true\b", "{ proof { assert(vx_grants == 1); }   // #returns_true_only_after_its_own_successful_withdrawal [C08]\n return true }", None),
+    ("sub", "ghost-inject", r"\breturn\s+false\b", "{ proof { assert(vx_grants == 0); }   // #returns_false_without_withdrawing [C08]\n return false }", None),
 ]
 UNIT = dict(
     serves=["C08", "C13"],
